@@ -303,6 +303,9 @@ package combinator
 //@   ensures [copy;C07,C01] len(nodes) >= 2 || (len(nodes) == 1 && !returnSingle) ==> typeis[*ast.NonTerminalNode](r) && fresh(r.(*ast.NonTerminalNode)) && fresh(ast.ChildrenOf(r.(*ast.NonTerminalNode))) && len(ast.ChildrenOf(r.(*ast.NonTerminalNode))) == len(nodes) && forall k int :: 0 <= k && k < len(nodes) ==> same(ast.ChildrenOf(r.(*ast.NonTerminalNode))[k], nodes[k])
 //@   ensures [span;C01] len(nodes) >= 1 ==> r.ReaderPos() == nodes[len(nodes)-1].ReaderPos()
 //@   ensures [empty;C01] len(nodes) == 0 ==> r.Pos() == pos && r.ReaderPos() == pos
+//@   ensures [empty-node;C01,C04] len(nodes) == 0 ==> typeis[*ast.NonTerminalNode](r) && fresh(r.(*ast.NonTerminalNode))
+//@   ensures [empty-node-token;C01] len(nodes) == 0 ==> r.Token() == token
+//@   ensures [single;C01] len(nodes) == 1 && returnSingle ==> same(r, nodes[0])
 
 //@ -- ---------------------------------------------------------------------------------------------
 //@ -- constructors and setters of *Sequence: they establish / keep the object invariant [fns]
